@@ -3,6 +3,7 @@
 HARNESSES = {
     'mc_hash': dict(src=['mc_hash.c'], flavour='asan'),
     'mc_logmath': dict(src=['mc_logmath.c'], flavour='asan'),
+    'mc_endpointer': dict(src=['mc_endpointer.c'], flavour='asan', ldflags=['-Wl,--wrap=vad_classify']),
 }
 
 TRUST = ['gcc 12 / AddressSanitizer / UBSan runtime', 'the reference model in the harness source',
@@ -29,7 +30,32 @@ def _lm_runs(bases, shifts):
             for b in bases for s in shifts]
 
 
+def _ep_runs(maxwin, nlong):
+    r = [dict(h='mc_endpointer', label='endpointer-grid-shard%d' % i,
+              args=['--grid', '1', '--maxwin', str(maxwin), '--shard', '%d/14' % i]) for i in range(14)]
+    r.append(dict(h='mc_endpointer', label='endpointer-long-default', args=['--long', str(nlong)]))
+    r.append(dict(h='mc_endpointer', label='endpointer-long-w0.18-r0.5',
+                  args=['--long', str(nlong), '--window', '0.18', '--ratio', '0.5', '--flen', '0.03', '--rate', '11025']))
+    return r
+
+
 CHECKS = {
+    'C15': dict(
+        title='endpointed speech segments are exact excerpts with consistent timestamps',
+        level='model_checking',
+        runs={'quick': _ep_runs(6, 3000), 'thorough': _ep_runs(11, 30000)},
+        budget_s={'quick': 200, 'thorough': 2400},
+        coverage=mc_cov,
+        rule='for every configuration of a 10x8x5x6 grid (window, ratio, frame length, sample rate; incl. defaults and values the '
+             'initialiser must reject) whose look-back window is <= maxwin frames: explicit-state BFS to fixpoint over '
+             '{non-speech frame, speech frame, end_stream(0|1|full)} on the real endpointer with vad_classify interposed; frames carry '
+             'their index so every returned frame is identified byte-wise; state = (pos, n, in_speech, whole is_speech[], queued frame '
+             'ids and clocks relative to now, reference queue); a list model decides NULL/non-NULL, which frame, segment start/end '
+             'conditions and times after every transition. Plus long periodic streams (all bit patterns of period <= 6) for clock drift.',
+        assumptions=['end_stream is terminal (continuing a stream after end_stream is not documented and not explored)',
+                     'VAD decisions are arbitrary bits: the WebRTC classifier itself is replaced by the harness',
+                     'time equality is checked to 1e-6 s'] + TRUST,
+    ),
     'C19': dict(
         title='log-add accurate, symmetric, monotone; log/exp round trip never increases',
         level='exploration',
@@ -65,6 +91,15 @@ CHECKS = {
 PENDING_REASON = {}
 
 MANIFEST_TEXT = {
+    'C15': dict(
+        text='Explicit-state model checking of the real endpointer: for each accepted configuration with a window of up to 6 '
+             '(quick) / 11 (thorough) frames the set of reachable canonical states under arbitrary per-frame VAD decisions and '
+             'arbitrary end-of-stream points is explored to FIXPOINT, each transition executed on the implementation under ASan and '
+             'compared with a list-based reference (which frame comes back, byte-identical, contiguous, non-overlapping, start/end '
+             'thresholds, start/end times). The VAD bit sequence is the only way audio influences the endpointer, so every audio '
+             'stream is covered for these configurations; rejected configurations are checked against the documented rules.',
+        design_ref='DESIGN.md section 2, H3', technique='explicit-state BFS to fixpoint on the implementation with interposed VAD, lock-step list model',
+        note='windows longer than 11 frames not explored; end_stream terminal; src/ps_endpointer.c is compiled into the harness unit to read its private struct'),
     'C20': dict(
         text='Explicit-state model checking of the real hash_table_t: breadth-first search to FIXPOINT over all histories of '
              'enter/replace/delete/empty on 6 (quick) or 8 (thorough) keys forced into shared buckets, in case-sensitive, '
